@@ -222,6 +222,7 @@ def main(run):
     rec.close()
     run.notes["welford_update_line_paths"] = sorted(map(list, wpaths))
     run.notes["smoothing_update_line_paths"] = sorted(map(list, epaths))
-    run.count("distinct-line-paths-welford", 0)
-    run.counters["distinct-line-paths-welford"] = len(wpaths)
-    run.counters["distinct-line-paths-smoothing"] = len(epaths)
+    for pth in wpaths:
+        run.see("welford-update-line-path", pth)
+    for pth in epaths:
+        run.see("smoothing-update-line-path", pth)
